@@ -17,7 +17,7 @@ def encOV : Option Val → Sexp
   | some v => LokiModel.Fir.encVal v
   | none => atom "err"
 
-/-- valuation from `((x val)…)`; real literal texts are read by the harness and passed as `(lit "text" num den)` -/
+/-- valuation from `((x val)…)` (names are lower case, Fortran variables are looked up case-insensitively); real literal texts are read by the harness and passed as `(lit "text" num den)` -/
 def decEnv (vars lits : List Sexp) : Option Env := do
   let vs ← vars.mapM fun
     | list [x, v] => do pure ((← x.toStr?), (← LokiModel.Fir.decVal v))
@@ -27,7 +27,7 @@ def decEnv (vars lits : List Sexp) : Option Env := do
         let n ← n.toInt?; let d ← d.toNat?
         if d = 0 then none else pure ((← t.toStr?), ((n : Rat) / (d : Rat)))
     | _ => none
-  pure ⟨fun x => (vs.find? (·.1 == x)).map (·.2), fun t => ((ls.find? (·.1 == t)).map (·.2)).getD 0⟩
+  pure ⟨fun x => (vs.find? (·.1 == x.toLower)).map (·.2), fun t => ((ls.find? (·.1 == t)).map (·.2)).getD 0⟩
 
 def optStep : Sexp → Option (Option Int)
   | atom "none" => some none
@@ -41,6 +41,16 @@ def step : Sexp → Option Sexp
       pure (list [atom "ok", list (atom "tok" :: (printPy pycfg e 0).map encPTok),
                   list [atom "py", encOV (evalPy env s)], list [atom "f", encOV (evalS env s)],
                   list [atom "known", ofBool (KnownPyExpr env s)]])
+  -- `(prog mode program inputs…)`: the reference semantics (Lean FIR interpreter) of the routine on every input set
+  | list (atom "prog" :: _ :: prog :: inputs) => do
+      let p ← LokiModel.Fir.decProgram prog
+      let names := match LokiModel.Fir.findUnit p p.main with | some u => u.args | none => []
+      let rs ← inputs.mapM fun
+        | list ins => do
+            let ins ← LokiModel.Fir.decInputs ins
+            pure (LokiModel.Fir.encRes names (LokiModel.Fir.runMain p 100000 ins))
+        | _ => none
+      pure (list (atom "ok" :: rs))
   | list [atom "range", s, e, st] => do
       let s ← s.toInt?; let e ← e.toInt?; let st ← optStep st
       match loopRange s e st with
